@@ -273,6 +273,7 @@ class PortAdapter(_Base):
     return obs
 
   def signature(self, st, obs):
+    """which API answers differ, and how (scalar fields: usable in KNOWN_FINDINGS)"""
     sig = {"spec": "PortView", "action": st["a"]}
     exp = st["exp"]
     if isinstance(obs, dict) and "EXC" in obs:
@@ -281,6 +282,7 @@ class PortAdapter(_Base):
     if st["a"] in ("Status", "EarlyStatus"):
       sig["reason"] = st["args"]["r"]
     diffs = []
+    kinds = set()
     for side in ("cur", "orig"):
       o = obs.get(side) if isinstance(obs, dict) else None
       e = exp.get(side) if isinstance(exp, dict) else None
@@ -292,13 +294,23 @@ class PortAdapter(_Base):
         if o.get(k) != e.get(k):
           diffs.append(side + "." + k)
           if k in ("byname", "byhw") and isinstance(o.get(k), dict):
-            kinds = set()
             for key in o[k]:
               if o[k][key] != e[k].get(key):
                 kinds.add("stale_hit" if o[k][key] and not e[k].get(key) else
                           "missed" if e[k].get(key) and not o[k][key] else "wrong_port")
-            sig[side + "." + k] = sorted(kinds)
-    sig["fields"] = diffs
+    lookups = [d for d in diffs if d.split(".")[-1] in ("byname", "byhw", "via_in_name", "via_in_hw")]
+    sig["class"] = ("attribute_lookup" if diffs and len(lookups) == len(diffs) else
+                    "original_ports" if diffs and all(d.startswith("orig") for d in diffs) else "mapping")
+    if sig["class"] == "attribute_lookup":
+      # lookups by name / address answered wrongly while numbers, len, iteration are right:
+      # one class per view, whatever the notification was
+      sig.pop("reason", None)
+      sig["action"] = "Status" if st["a"] in ("Status", "Barrier") else st["a"]
+      sig["view"] = "+".join(sorted(set(d.split(".")[0] for d in diffs)))
+    else:
+      sig["fields"] = ",".join(diffs)
+    if kinds:
+      sig["lookup"] = "stale_hit" if "stale_hit" in kinds else sorted(kinds)[0]
     return sig
 
 
